@@ -10,7 +10,7 @@
 //	             expressions over variables): round trip by parse.BaseTerm
 //	c09_clause   a clause given as a syntax tree: String(), round trip by parse.Clause
 //	             and parse.Unit
-//	c09_parse    a text: what parse.Unit makes of  m(<text>\n).  (the model parser's counterpart)
+//	c09_parse    a text: what parse.Unit makes of  m(<text>\n, 0).  or  <text>\n.  (the model parser's counterpart)
 //	c09_unescape / c09_escape   ast.Unescape / ast.Escape on a byte string
 package main
 
@@ -747,10 +747,11 @@ func init() {
 			out.TermOK = true
 		}
 		// a base term as the argument of a fact m(...); an atom as a fact of its own
-		unit, err := parse.Unit(strings.NewReader("m(" + text + "\n)."))
+		// (a second argument, so that a trailing comma of the text is not absorbed by the argument list)
+		unit, err := parse.Unit(strings.NewReader("m(" + text + "\n, 0)."))
 		if err == nil && len(unit.Clauses) == 1 && len(unit.Decls) == 1 {
 			cl := unit.Clauses[0]
-			if cl.Head.Predicate.Symbol == "m" && len(cl.Head.Args) == 1 && cl.Premises == nil && cl.HeadTime == nil && cl.Transform == nil {
+			if cl.Head.Predicate.Symbol == "m" && len(cl.Head.Args) == 2 && cl.Head.Args[1].Equals(ast.Number(0)) && cl.Premises == nil && cl.HeadTime == nil && cl.Transform == nil {
 				if j, ok := termJ(cl.Head.Args[0]); ok {
 					out.Tree = j
 				}
